@@ -9,6 +9,7 @@ import (
 	"github.com/pkg/errors"
 	"go.brendoncarroll.net/p2p"
 	"go.brendoncarroll.net/p2p/f/x509"
+	"go.brendoncarroll.net/p2p/verifhook"
 	"go.brendoncarroll.net/tai64"
 	"go.uber.org/zap"
 	"golang.org/x/crypto/blake2b"
@@ -67,6 +68,7 @@ type Channel struct {
 }
 
 func NewChannel(params ChannelConfig) *Channel {
+	verifAdjustConfig(&params)
 	if params.Registry == nil {
 		params.Registry = x509.DefaultRegistry()
 	}
@@ -405,6 +407,7 @@ func (c *Channel) getOrInit(ctx context.Context) (*Session, error) {
 		ready := c.ready
 		c.mu.Unlock()
 
+		verifhook.Point(verifhook.ChannelGetOrInitWait)
 		select {
 		case <-ctx.Done():
 			return nil, ctx.Err()
@@ -472,6 +475,7 @@ func (c *Channel) doThenSend(fn func() ([]byte, error)) error {
 		return err
 	}
 	if data != nil {
+		verifhook.Point(verifhook.ChannelBeforeSend)
 		c.params.Send(data)
 	}
 	return nil
